@@ -101,7 +101,8 @@ def run(ctx):
     wrong = tlc.apalache('ReadLoopInd', 'Init', 'WrongInv', 3, ctx.work)
     if (base, step, wrong) != ('ok', 'ok', 'violation'):
         raise MachineryError('ReadLoopInd: base %s, step %s, wrong clause %s' % (base, step, wrong))
-    ctx.stage('apalache-inductive', base=base, step=step, wrong_clause=wrong)
+    proved = tlc.tlaps('ReadLoopIndProof', ctx.work)
+    ctx.stage('apalache-inductive', base=base, step=step, wrong_clause=wrong, tlaps_obligations_proved=proved)
     recs = [r for r in res.records if 'pieces' in r]
     tables = [r for r in res.records if 'last' in r][0]
     if len(recs) < 1000:
